@@ -234,11 +234,19 @@ func (r *AofRotateReader) tryReadNextFile(offset int64) error {
 		}
 		return err
 	}
-	err = r.closeAof()
-	if err != nil {
-		r.logger.Errorf("close error : %v", err)
+	// Take the reference on the next segment (openFile -> Open observer) before
+	// the one on the current segment is dropped: the collector removes
+	// unreferenced segments from the oldest on and stops at the first referenced
+	// one, so as long as the current segment is referenced the next one stays.
+	oldFile, oldLeft := r.file, r.left
+	err = r.openFile(offset)
+	if oldFile != nil && r.file != oldFile {
+		if cerr := oldFile.Close(); cerr != nil {
+			r.logger.Errorf("close error : %v", cerr)
+		}
+		(*r.observer.Load()).Close(oldLeft)
 	}
-	return r.openFile(offset)
+	return err
 }
 
 // @TODO not thread safe
